@@ -110,11 +110,17 @@ int Wave_File::load_file(const std::string& filename, uint8_t** buffer, uint32_t
 	if(std::ifstream is{filename, std::ios::binary|std::ios::ate})
 	{
 		auto size = is.tellg();
+		if(size < 0 || size > 0x7fffffff)
+			return -1;
 		*filesize = size;
-		*buffer = (uint8_t*)calloc(1,size);
+		*buffer = (uint8_t*)calloc(1,size ? (size_t)size : 1);
+		if(!*buffer)
+			return -1;
 		is.seekg(0);
 		if(is.read((char*)*buffer, size))
 			return 0;
+		free(*buffer);
+		*buffer = nullptr;
 	}
 	return -1;
 }
